@@ -717,7 +717,13 @@ pub fn replay_file(props: &[&dyn Property], path: &Path) -> i32 {
 /// Determinism self-test support: run the batch without shrinking and write one line per
 /// run (index, I/O signature, digest of scenario + violations + stats) to `path`.
 pub fn digest_batch(prop: &dyn Property, tier: &str, seed: u64, total: usize, workers: usize, path: &Path) -> i32 {
-    let next = AtomicUsize::new(0);
+    // VERIF_DIGEST_FROM=<index>: only the tail of the batch (the strata appended at the end)
+    let from: usize = std::env::var("VERIF_DIGEST_FROM")
+        .ok()
+        .and_then(|v| v.parse().ok())
+        .unwrap_or(0)
+        .min(total);
+    let next = AtomicUsize::new(from);
     let lines: Mutex<Vec<Option<String>>> = Mutex::new((0..total).map(|_| None).collect());
     std::thread::scope(|scope| {
         for _ in 0..workers {
